@@ -750,7 +750,37 @@ class DataCopyMasked(Contract):
                 ctx.oblige("every-selected-entry-is-kept", z3.Implies(z3.And(j >= 0, j < e["n"].e, e["M"].elem(j)), z3.And(rank(j) < mm, pos(rank(j)) == j)))
 
 
-CONTRACTS = CONTRACTS + [DataCopyMasked]
+class DataCopyRefusedMask(DataCopyMasked):
+    """Data.copy: a mask that is not a boolean array with one entry per value -- an integer array of the
+    right length (it would be read as positions), a boolean array of another length -- is refused
+    before anything is copied."""
+    variant = "refused-masks"
+
+    def cases(self):
+        return [(assoc, bad) for assoc in ("VERTEX", "CELL") for bad in ("integer-mask-of-the-right-length", "boolean-mask-of-another-length", "integer-mask-of-another-length")]
+
+    def setup(self, ctx):
+        assoc, bad = ctx.case
+        real = ctx.case
+        ctx.case = (assoc, "smaller-parent")
+        args, kw = super().setup(ctx)
+        ctx.case = real
+        n = ctx.env["n"]
+        length = n.e if bad == "integer-mask-of-the-right-length" else ctx.int("mask_length", 0).e
+        if bad != "integer-mask-of-the-right-length":
+            ctx.assume(length != n.e)
+        kw["mask"] = sym_arr("mask", (length,), "bool" if bad.startswith("boolean") else "int")
+        return args, kw
+
+    def post(self, ctx, result):
+        ctx.oblige("a-mask-that-is-not-one-boolean-per-value-is-refused", False, note="the copy went ahead")
+
+    def post_raises(self, ctx, sig):
+        copied = [k for k, p in ctx.path.events if k == "copy_to_parent"]
+        ctx.oblige("refused-with-ValueError-before-anything-is-copied", sig.exc_class is ValueError and not copied, kind="post-exc", note=f"{sig.exc_class.__name__}")
+
+
+CONTRACTS = CONTRACTS + [DataCopyMasked, DataCopyRefusedMask]
 
 
 class DrillholeClipNative(Contract):
